@@ -1206,3 +1206,56 @@ def rule_problem_build_table(F, ev, R, config, rule="R-PROBLEM-BUILD-TABLE"):
         ok = t1 and len(eqs) == 1 and len(alts) == 2
         R.add(rule, config, sb.key, "unit=>true,diagonal=>len==n", ok, "" if ok else "weights size check evaluates to `%s`" % short(v)[:200], sb.j["span"])
     R.floor(rule, config, 10, "4 error variants + 5 success conditions + size table")
+
+
+def rule_weights_ctor(F, ev, R, config, rule="R-WEIGHTS-CTOR"):
+    """the weights a caller supplies are the weights that are stored: the builder's weights setter stores exactly
+    `Diagonal(DiagMatrix{diagonal: the given vector})` — one alternative, no path on which given weights become Unit or
+    are changed — and every public constructor of Weights / DiagMatrix from a vector is that identity embedding"""
+    br = builder_roles(F)
+    dfield = [f["name"] for f in struct_fields(F, ADT_DIAG)]
+    n = 0
+
+    def is_diag_of(t, vec):
+        """t == Weights::Diagonal(DiagMatrix{diagonal: vec})"""
+        if t[0] != "agg" or t[1] != ADT_WEIGHTS or t[2] != "Diagonal" or not t[3]:
+            return False
+        d = t[3][0][1]
+        return d[0] == "agg" and d[1] == ADT_DIAG and len(d[3]) == 1 and d[3][0][1] == vec
+
+    for sb in inherent_methods(F, ADT_PBUILDER):
+        # a setter taking a vector and returning the builder whose weights field changes
+        if not (sb.j.get("inputs") and ADT_PBUILDER in sb.j["inputs"][0] and len(sb.j["inputs"]) == 2 and "nalgebra::Matrix" in sb.j["inputs"][1]):
+            continue
+        ev.fresh_ctx()
+        v = ev.ret_val(Env(sb))
+        fv = struct_view(F, v, ADT_PBUILDER)
+        if fv is None:
+            continue
+        w = fv.get(br["weights"])
+        if w is None or w == ("field", ("param", sb.key, 1), br["weights"]):
+            continue   # not the weights setter
+        n += 1
+        ok = is_diag_of(w, ("param", sb.key, 2))
+        R.add(rule, config, sb.key, "stores-the-given-weights", ok,
+              "" if ok else "the weights setter stores `%s`, not Diagonal(the given vector): supplied weights can be dropped or altered" % short(w)[:160], sb.j["span"])
+    # public constructors: Weights::diagonal(v), From<DiagMatrix>, DiagMatrix::from(v)
+    for b in F.bodies.values():
+        if b.kind == "Closure":
+            continue
+        im = b.j.get("impl", {})
+        out = b.j.get("output", "")
+        ins = b.j.get("inputs", [])
+        if im.get("self_adt") == ADT_WEIGHTS and len(ins) == 1 and "nalgebra::Matrix" in ins[0] and (out.startswith(ADT_WEIGHTS) or out == "Self"):
+            n += 1
+            ev.fresh_ctx()
+            v = ev.ret_val(Env(b))
+            ok = is_diag_of(v, ("param", b.key, 1))
+            R.add(rule, config, b.key, "diagonal(v)=Diagonal(v)", ok, "" if ok else "constructing weights from a vector yields `%s`" % short(v)[:160], b.j["span"])
+        if im.get("self_adt") == ADT_DIAG and im.get("trait", "").startswith("std::convert::From") and len(ins) == 1 and "nalgebra::Matrix" in ins[0]:
+            n += 1
+            ev.fresh_ctx()
+            v = ev.ret_val(Env(b))
+            ok = v[0] == "agg" and v[1] == ADT_DIAG and len(v[3]) == 1 and v[3][0][1] == ("param", b.key, 1)
+            R.add(rule, config, b.key, "DiagMatrix::from(v) keeps v", ok, "" if ok else "DiagMatrix::from yields `%s`" % short(v)[:160], b.j["span"])
+    R.floor(rule, config, 3, "builder setter, Weights::diagonal, DiagMatrix::from")
